@@ -780,14 +780,11 @@ func assign(n *node) {
 	level := make([]int, n.nright)
 
 	for i := range types {
-		var t reflect.Type
-		switch typ := n.child[sbase+i].typ; {
-		case isInterfaceSrc(typ):
-			t = valueInterfaceType
-		default:
-			t = typ.TypeOf()
+		if dest := n.child[i]; dest.ident != "_" {
+			// The source value is generated for the type of the destination (see genDestValue):
+			// the temporary which holds it has the type of the destination, not of the source.
+			types[i] = dest.typ.frameType()
 		}
-		types[i] = t
 		index[i] = n.child[i].findex
 		level[i] = n.child[i].level
 	}
